@@ -124,7 +124,7 @@ func (q *fakeQueue) TaskDone(p peer.ID, task *peertask.Task) {
 	q.log = append(q.log, fmt.Sprintf("-%d.%d", peerNum(p), reqNum(task.Topic.(graphsync.RequestID))))
 }
 func (q *fakeQueue) Remove(t peertask.Topic, p peer.ID) {}
-func (q *fakeQueue) Stats() graphsync.RequestStats    { return graphsync.RequestStats{} }
+func (q *fakeQueue) Stats() graphsync.RequestStats      { return graphsync.RequestStats{} }
 func (q *fakeQueue) WithPeerTopics(p peer.ID, f func(*peertracker.PeerTrackerTopics)) {
 	q.mu.Lock()
 	defer q.mu.Unlock()
@@ -885,9 +885,9 @@ func runCase(c reg.Case, out *reg.Out) {
 		out.Fail("stuck", "the manager did not reach the expected quiescent point within %v", waitLimit)
 	}
 	// ---- oracle C09
-	owner := map[int]int{}      // request -> peer it was sent to (first `new`)
-	foreign := map[int]bool{}   // requests that receive responses from another peer
-	newAt := map[int]int{}      // op index of the request's creation
+	owner := map[int]int{}    // request -> peer it was sent to (first `new`)
+	foreign := map[int]bool{} // requests that receive responses from another peer
+	newAt := map[int]int{}    // op index of the request's creation
 	for i, op := range c.Ops {
 		if op[0] == "new" && len(op) == 3 {
 			r, _ := strconv.Atoi(op[1])
